@@ -1,4 +1,5 @@
 import DcmVerif.Proofs.Grid
+import DcmVerif.Proofs.Guess
 import DcmVerif.Props.C11_complete
 /-! Property theorems for C11. Statements only; proofs are by reference to `Proofs/`. -/
 set_option autoImplicit false
@@ -83,5 +84,39 @@ theorem f13_mixes_time : ¬ VolumesHaveOneTime f13 2 :=
 theorem accept_does_not_imply_one_time :
     ¬ (∀ files S T V, getShape (fun _ => true) files = .ok S T V → VolumesHaveOneTime files S) :=
   Stk.accept_does_not_imply_one_time 
+
+/-! ### guessed ordering (`Proofs/Guess.lean`) -/
+
+/-- **a guessed ordering is a real one:** when `get_shape` succeeds without ordering keys, the key
+    it picked is present in every file, has as many distinct values as there are volumes or files,
+    and with it as time ordinate the files pass every check of the explicit case -/
+theorem guess_ok_accepts (spacingOk : List Int → Bool) (nCands : Nat) (files : List GF)
+    (S T V k : Nat) (h : guessShape spacingOk nCands files = (.ok S T V, some k)) :
+    k ∈ possibleOrders files nCands ((files.map (·.f)).length / dimS (files.map (·.f))) ∧
+    getShape spacingOk (retime files k) = .ok S T V :=
+  Stk.guess_ok_accepts spacingOk nCands files S T V k h
+
+/-- … and it is the first key of `sort_guesses` under which the stack is a complete grid -/
+theorem guess_first (spacingOk : List Int → Bool) (nCands : Nat) (files : List GF)
+    (S T V k : Nat) (h : guessShape spacingOk nCands files = (.ok S T V, some k)) :
+    ∃ pre post, possibleOrders files nCands ((files.map (·.f)).length / dimS (files.map (·.f))) =
+        pre ++ k :: post ∧
+      ∀ k' ∈ pre, acceptB spacingOk (retime files k') = false :=
+  Stk.guess_first spacingOk nCands files S T V k h
+
+/-- more than one volume and no candidate key makes the files a complete grid: refused -/
+theorem guess_refuses (spacingOk : List Int → Bool) (nCands : Nat) (files : List GF)
+    (hn : (files.map (·.f)).length ≠ 0) (hs : dimS (files.map (·.f)) ≠ 0)
+    (hv : 1 < (files.map (·.f)).length / dimS (files.map (·.f)))
+    (hnone : ∀ k ∈ possibleOrders files nCands ((files.map (·.f)).length / dimS (files.map (·.f))),
+      acceptB spacingOk (retime files k) = false) :
+    guessShape spacingOk nCands files = (.invalid, none) :=
+  Stk.guess_refuses spacingOk nCands files hn hs hv hnone
+
+/-- a single volume needs no key -/
+theorem guess_single_volume (spacingOk : List Int → Bool) (nCands : Nat) (files : List GF)
+    (h : (files.map (·.f)).length / dimS (files.map (·.f)) ≤ 1) :
+    guessShape spacingOk nCands files = (getShape spacingOk (files.map (·.f)), none) :=
+  Stk.guess_single_volume spacingOk nCands files h
 
 end C11
